@@ -87,7 +87,8 @@ GCA == /\ Step /\ e.ev = "gc" /\ Must(e.err = "") /\ KeepState
 DelVers(r) == [o \in Offs(r.deleted) |-> r.vers[CHOOSE i \in 1..Len(r.deleted) : r.deleted[i].off = o]]
 Delete == /\ Step /\ e.ev = "delete"
           /\ IF h.mode = "ro"
-             THEN Must(e.err = "Readonly") /\ UNCHANGED live
+             THEN \* DeleteMulti of an empty set never reaches Delete
+                  Must(e.deleted = <<>> /\ (e.err = "Readonly" \/ (e.multi /\ e.S = <<>> /\ e.err = ""))) /\ UNCHANGED live
              ELSE /\ IF e.j THEN Must(IF e.multi THEN DeleteMultiOK(live, DelVers(e), Par, SetOf(e.S), e)
                                                  ELSE DeleteOK(live, DelVers(e), Par, SetOf(e.S), e))
                             ELSE UNCHANGED kf
@@ -130,15 +131,16 @@ Layout == /\ Step /\ e.ev = "layout"
           /\ UNCHANGED <<live, next, cfg, h, pend>>
 
 \* ---- C15
+FindJudged == IF e.kind = "age" /\ cfg.times /\ live = <<>> /\ e.err = "InvalidOffset"
+              THEN e.R = <<>>                              \* like GetByTime on an empty log
+              ELSE /\ e.err = ""
+                   /\ CASE e.kind = "offset" -> FindByOffsetOK(live, e.arg, SetOf(e.R))
+                        [] e.kind = "count" -> FindByCountOK(live, e.arg, SetOf(e.R))
+                        [] e.kind = "size" -> FindBySizeOK(live, e.statSize, e.arg, Est, SetOf(e.R))
+                        [] e.kind = "age" -> FindByAgeOK(live, e.arg, SetOf(e.R), cfg.mono \/ (~cfg.times /\ NonDecreasingTimes(live)))
 Find == /\ Step /\ e.ev = "find"
         /\ pend' = SetOf(e.R)
-        /\ IF e.j
-           THEN Must(e.err = "" /\
-                (CASE e.kind = "offset" -> FindByOffsetOK(live, e.arg, SetOf(e.R))
-                   [] e.kind = "count" -> FindByCountOK(live, e.arg, SetOf(e.R))
-                   [] e.kind = "size" -> FindBySizeOK(live, e.statSize, e.arg, Est, SetOf(e.R))
-                   [] e.kind = "age" -> FindByAgeOK(live, e.arg, SetOf(e.R))))
-           ELSE UNCHANGED kf
+        /\ IF e.j THEN Must(FindJudged) ELSE UNCHANGED kf
         /\ UNCHANGED <<live, next, cfg, h, lay>>
 Trim == /\ Step /\ e.ev = "trim"
         /\ LET D == SetOf(e.D) IN
